@@ -82,7 +82,7 @@ end Generic
 def wKey (w : OpEntry × (Nat × List (Option Nat))) : TKey := (w.2.1, w.1.pk)
 
 def wVals (cfg : Cfg) (w : OpEntry × (Nat × List (Option Nat))) : List Val :=
-  if cfg.nullDelete && w.1.op = .delete then w.2.2.map (fun _ => none) else tableVals w.2.2 w.1.vals
+  if cfg.nullDelete && w.1.op = .delete then nullVals cfg w.2.1 w.2.2 w.1.vals else tableVals w.2.2 w.1.vals
 
 def wMods (cfg : Cfg) (w : OpEntry × (Nat × List (Option Nat))) : List Bool :=
   if cfg.modTracker then tableFlags w.2.2 w.1.changed (w.1.op = .delete) else []
